@@ -111,6 +111,10 @@ def resample_strategy(draw, tier):
             "reuse": draw(st.sampled_from(["no", "no", "same-tree-again", "another-tree-first", "moved-by-a-transform-after-a-first-resampling",
                                            "edited-in-place-after-a-first-resampling"])),
             "edit_sel": draw(st.integers(0, 10 ** 6)),
+            # the neuron in stack / atlas coordinates: moved by multiples of 4096 (exact for the 1/8 lattice in float32)
+            "far": draw(st.sampled_from([None, None, None, [8192.0, -16384.0, 4096.0], [32768.0, 12288.0, -28672.0], [-20480.0, 0.0, 0.0]])),
+            # the spacing handed over as a Python float, an int / numpy integer (whole-number spacings), or a numpy float
+            "d_form": draw(st.sampled_from(["float", "float", "int", "np.int64", "np.float32", "np.float64"])),
             # the other spacing mode: steps of exactly the spacing and a shorter last step (no clause on equal steps there)
             "adjust_last_gap": draw(st.integers(0, 4)) != 0}
 
@@ -145,7 +149,7 @@ def _spacing(t, f, special):
     return max(d, 1e-3), lens
 
 
-def _check_resampled(ctx, t, y, d, label, adjust=True):
+def _check_resampled(ctx, t, y, d, label, adjust=True, mag=0.0):
     """y: resampled Tree.  Walk both trees from the root, branch by branch.  adjust=False: the mode whose steps are
     exactly the spacing with a shorter last step (nodes at arc length j*d, the end point last)."""
     parents = t["parents"]
@@ -195,7 +199,7 @@ def _check_resampled(ctx, t, y, d, label, adjust=True):
             if not (L / m <= d * (1 + 1e-6) or L == 0):
                 return (f"{label}/steps-no-longer-than-spacing", f"{L / m} > {d}")
             rr = r32[list(B)].astype(np.float64)
-            tol = 1e-4 * (1 + L) + 1e-5
+            tol = 1e-4 * (1 + L) + 1e-5 + 1e-6 * mag  # float32 storage of coordinates of magnitude `mag`
             for j, node in enumerate(Y):
                 sarc = L * j / m if adjust else (L if j == m else min(j * d, L))
                 want_p = _point_at(Pb, cum, sarc)
@@ -240,7 +244,7 @@ def _check_resampled(ctx, t, y, d, label, adjust=True):
             stack.append((B[-1], Y[-1]))
     ylen = float(np.sum(np.linalg.norm(yx[1:] - yx[[p for p in yp[1:]]], axis=1))) if len(yp) > 1 else 0.0
     olen = float(models.seg_lengths(t).sum())
-    ctx.check(ylen <= olen * (1 + 1e-5) + 1e-5, f"{label}/total-length-never-grows", lambda: f"{ylen} > {olen}")
+    ctx.check(ylen <= olen * (1 + 1e-5) + 1e-5 + 1e-6 * mag * len(yp), f"{label}/total-length-never-grows", lambda: f"{ylen} > {olen}")
     return n_long_bent
 
 
@@ -250,6 +254,23 @@ def run_resample(case, ctx):
     t = case["tree"]
     parents = t["parents"]
     d, lens = _spacing(t, case["f"], case["special"])
+    mag = 0.0
+    if case.get("far"):
+        t = dict(t, **{c: [v + o for v in t[c]] for c, o in zip("xyz", case["far"])})
+        mag = max(abs(o) for o in case["far"]) + 64.0
+        ctx.cls("far-from-the-origin")
+    form = case.get("d_form", "float")
+    if form in ("int", "np.int64") and d >= 1.0:
+        d = float(int(d))  # a whole number of units, handed over as an integer
+        d_arg = int(d) if form == "int" else np.int64(int(d))
+        ctx.cls("spacing-given-as-an-integer")
+    elif form == "np.float32":
+        d = float(np.float32(d))
+        d_arg = np.float32(d)
+    elif form == "np.float64":
+        d_arg = np.float64(d)
+    else:
+        d_arg = d
     tree = gen_tree.build_tree(t)
     before = {k: v.copy() for k, v in tree.ndata.items()}
     ch = models.children(parents)
@@ -266,7 +287,7 @@ def run_resample(case, ctx):
     if any(p > i for i, p in enumerate(parents)):
         ctx.cls("numbering-not-parent-before-child")
     adjust = bool(case.get("adjust_last_gap", True))
-    rs = IsometricResampler(d) if adjust else IsometricResampler(d, adjust_last_gap=False)
+    rs = IsometricResampler(d_arg) if adjust else IsometricResampler(d_arg, adjust_last_gap=False)
     if not adjust:
         ctx.cls("mode:last-step-shorter")
         if any(v > 0 and abs(v / d - round(v / d)) < 1e-6 * max(1.0, v / d) for v in lens):
@@ -308,7 +329,7 @@ def run_resample(case, ctx):
     y = ctx.lib("IsometricResampler", rs, tree)
     for k, v in before.items():
         ctx.check(np.array_equal(tree.ndata[k], v), "tree/input-unchanged", f"column {k}")
-    nlb = _check_resampled(ctx, t, y, d, "tree", adjust)
+    nlb = _check_resampled(ctx, t, y, d, "tree", adjust, mag)
     ctx.nontrivial(nlb >= 1 and len(lens) >= 2)
 
 
@@ -465,7 +486,7 @@ SUBCHECKS = [
                   "zero-length-branch": 30, "d<meanL": 300, "d>=meanL": 300, "twin-tips": 40,
                   "numbering-not-parent-before-child": 200, "resampler-object-reused": 300,
                   "sibling-key-nodes-at-the-same-place": 100, "resampled-again-after-the-neuron-changed": 300,
-                  "mode:last-step-shorter": 250}),
+                  "mode:last-step-shorter": 250, "far-from-the-origin": 400, "spacing-given-as-an-integer": 100}),
     Sub("branch", branch_strategy, run_branch, quick=2400, thorough=24000, shards_quick=2,
         required={"via:tree": 200, "via:from_xyzr": 200, "L=0": 10, "has-zero-length-segment": 100}),
     Sub("smooth", smooth_strategy, run_smooth, quick=1500, thorough=12000, shards_quick=2,
